@@ -631,6 +631,10 @@ func (env *SpecEnv) call(n *ECall) SVal {
 		s := n.Args[1].(*EStr)
 		T := env.typeByName(s.V)
 		return SVal{V: env.e.unbox(env.st(), v.V.Fs[1].T, T), T: T}
+	case "arr2bytes":
+		// a[:] of a byte array a
+		v := env.eval(n.Args[0])
+		return SVal{V: scalar(App("arr2bytes", SSeq, v.V.T)), G: "Seq"}
 	case "s2b":
 		v := env.eval(n.Args[0])
 		return SVal{V: scalar(App("s2b", SSeq, v.V.T)), G: "Seq"}
